@@ -40,6 +40,37 @@ Proof. vm_compute. reflexivity. Qed.
 Lemma memoize_changes_value : value_of (parse (cfg_memo faithful true) 100) = Some (VList [VBytes [97%N]; VNil]).
 Proof. vm_compute. reflexivity. Qed.
 (* not memoising the results of label-binding expressions restores the equivalence on the witness *)
-Definition no_label_memo : quirks := mkQuirks true true true true false true.
+Definition no_label_memo : quirks := mkQuirks true true true true false true true.
 Lemma memoize_without_label_memo : value_of (parse (cfg_memo no_label_memo true) 100) = Some expected.
 Proof. vm_compute. reflexivity. Qed.
+
+(* Second witness: the expected set of the final report.
+     S <- !A "x" / A ;  A <- "a"      input "b"
+   A at 0 is first evaluated inside the ! predicate, where its failure is not an expectation; the second alternative
+   reaches A at 0 again, outside: by default the failure of "a" is recorded, with Memoize(true) the hit records nothing. *)
+Definition g_exp : grammar :=
+  [ mkRule (nm "S") [] (EAlt 1%N [ESeq 2%N [ENot 3%N (ERef 4%N (nm "A")); lit1 5%N 120%Z """x"""]; ERef 6%N (nm "A")]) false false;
+    mkRule (nm "A") [] (lit1 7%N 97%Z """a""") false false ].
+
+Definition cfg_exp (q : quirks) (memo : bool) : cfg :=
+  mkCfg q u0 (mkTmpl false false false false) (mkOpts memo false false true false 0%N [] [])
+        [98]%N g_exp env_x.
+
+Definition errors_of (o : outcome) : list bytes := match o with Returned _ es _ => map perr_string es | _ => [] end.
+Definition rerrors_of (o : routcome) : list bytes := match o with RReturned _ es _ => map perr_string es | _ => [] end.
+
+Definition both_expected : list bytes := [nm "1:1 (0): no match found, expected: ""a"" or ""x"""].
+Definition only_x : list bytes := [nm "1:1 (0): no match found, expected: ""x"""].
+
+Lemma exp_spec : rerrors_of (rparse (rd (cfg_exp faithful false)) 100) = both_expected.
+Proof. vm_compute. reflexivity. Qed.
+Lemma exp_default : errors_of (parse (cfg_exp faithful false) 100) = both_expected.
+Proof. vm_compute. reflexivity. Qed.
+Lemma exp_memoize : errors_of (parse (cfg_exp faithful true) 100) = only_x.
+Proof. vm_compute. reflexivity. Qed.
+(* not using the table inside ! predicates restores the equivalence on the witness *)
+Definition no_expected_memo : quirks := mkQuirks true true true true true true false.
+Lemma exp_memoize_repaired : errors_of (parse (cfg_exp no_expected_memo true) 100) = both_expected.
+Proof. vm_compute. reflexivity. Qed.
+Lemma exp_differ : both_expected <> only_x.
+Proof. intros H. apply (f_equal (fun l : list bytes => List.length (hd (@nil byte) l))) in H. vm_compute in H. discriminate H. Qed.
